@@ -6,6 +6,8 @@ LN = "Trusted: Lean kernel (axioms propext, Classical.choice, Quot.sound only; a
 CLAIMS = {
  "C04": dict(text="Lean 4 theorem HyP.C04.parse_eq_spec: for every list of characters the model of parse.rs (three-state machine incl. max_pos pre-pass, cursors, line/column and raw bookkeeping) returns exactly what the independently written grammar defines; plus area_machine_eq_areaOf, prepass_iff, kinds_lt_six and the tie of the character tables re-extracted from the source on every run. Model tied to parse.rs by: all strings up to length 6 over a 15-symbol alphabet with one representative of every character class (12.2 M strings, chunk hashes), length<=4 over 22 symbols, 20 k random Unicode mixtures incl. area chains up to 4096 operators.",
              note=LN + "char::is_whitespace is modelled by the Unicode White_Space list.", tech="Lean 4 proof (model = grammar for all strings) + differential correspondence model vs parse.rs", ref="DESIGN.md §5 C04"),
+ "C05": dict(text="Lean 4 theorems HyB.C05.*: on the model of big_number.rs (sign + little-endian base-2^32 limb vectors; add/sub/mult/div/less cores written loop for loop, producing the same vectors) add, sub, mul, truncating div, rem, neg, ==, ordering, gcd and construction from a machine integer return exactly the Int result in the canonical normal form, for operands with any number of limbs; limb bounds (no u32/u64 overflow, final casts truncate nothing), termination of gcd within its fuel. Tied to big_number.rs by differential runs (impl vs limb model vs Int spec) on boundary-biased operands of 1-6 limbs, all sign combinations, pure and in-place forms, normal-form probes.",
+             note=LN + "Raw limb vectors are observed through Display/is_pos/is_zero/to_int/== (no source hook). Divisor non-zero.", tech="Lean 4 proof (limb arithmetic refines Int arithmetic, by induction over limb vectors) + differential correspondence", ref="DESIGN.md §5 C05"),
  "C06": dict(text="Lean 4 theorems HyN.C06.*: on the model of num.rs over Int (Euclid-with-truncating-remainder gcd, repaired optimize) add/mul/neg/flip/floor/sign test/constructors return exactly the core-Rat result in canonical form (positive denominator, gcd 1) for operands of any size; NaN absorbing; structural equality = numeric equality. Tied to num.rs + big_number.rs by differential runs (impl vs model vs Rat spec) on boundary-biased multi-limb rationals.",
              note=LN + "Num over BigNum is read as Num over Int (justified by C05).", tech="Lean 4 proof (exactness + canonicity w.r.t. core Rat) + differential correspondence", ref="DESIGN.md §5 C06"),
  "C07": dict(text="Lean 4 theorems HyN.C07.cmp_lt_iff/cmp_eq_iff/cmp_gt_iff/cmp_nan_iff: partial_cmp of the model reports lt/eq/gt exactly when the Rat values are </=/>, and none exactly when a side is NaN, for all canonical operands. Tied to num.rs by differential runs on ordered pairs (equal, denominator-only differences, neighbours, NaN).",
